@@ -13,7 +13,7 @@ sys.path.insert(0, HERE)
 
 texts = json.load(open(os.path.join(HERE, "manifest_texts.json")))
 props = [json.loads(l) for l in open(os.path.join(VERIF, "properties.jsonl"))]
-tracked = set(subprocess.run(["git", "-C", VERIF, "ls-files"], stdout=subprocess.PIPE).stdout.decode().split("\n"))
+tracked = {"coq/" + l.strip() for l in open(os.path.join(VERIF, "coq", "INTEGRATED.txt")) if l.strip() and not l.startswith("#")} | {"harness/" + f for f in os.listdir(HERE)}
 
 checks, na = [], []
 for p in props:
